@@ -733,6 +733,71 @@ func runC26(c *Ctx) {
 	c.remainingProvenance()
 	// (c) dispatch exhaustiveness
 	c.dispatchExhaustive()
+	// (d) the codec keeps no mutable package-level state
+	c.codecStateless()
+}
+
+// codecStateless: encoders/decoders run concurrently (one goroutine per client); a package-level
+// variable of package packets that is written, or whose storage is sliced/indexed in place, outside
+// init is shared scratch state and corrupts concurrently encoded packets.
+func (c *Ctx) codecStateless() {
+	sp := c.SSA[modPath+"/packets"]
+	if sp == nil {
+		return
+	}
+	nf, bad := 0, 0
+	for _, fn := range c.ModFns {
+		if fnPkgPath(fn) != modPath+"/packets" || fn.Name() == "init" || strings.HasPrefix(fn.Name(), "init#") {
+			continue
+		}
+		nf++
+		for _, ins := range instrs(fn) {
+			switch x := ins.(type) {
+			case *ssa.Store:
+				if g := rootGlobal(x.Addr); g != nil && g.Pkg == sp {
+					bad++
+					c.ob("C26.d codec-stateless", fmt.Sprintf("%s writes package-level variable packets.%s", fname(fn), g.Name()), c.pos(x.Pos()), false, "shared mutable state in the codec: concurrent encoders/decoders corrupt each other's packets")
+				}
+			case *ssa.Slice:
+				if g, ok := x.X.(*ssa.Global); ok && g.Pkg == sp {
+					bad++
+					c.ob("C26.d codec-stateless", fmt.Sprintf("%s slices the storage of package-level variable packets.%s", fname(fn), g.Name()), c.pos(x.Pos()), false, "a package-level scratch buffer is shared by all goroutines that encode or decode")
+				}
+			case *ssa.IndexAddr:
+				if g, ok := x.X.(*ssa.Global); ok && g.Pkg == sp {
+					bad++
+					c.ob("C26.d codec-stateless", fmt.Sprintf("%s takes the address of an element of package-level variable packets.%s", fname(fn), g.Name()), c.pos(x.Pos()), false, "a package-level scratch buffer is shared by all goroutines that encode or decode")
+				}
+			case *ssa.MapUpdate:
+				if g := rootGlobal(x.Map); g != nil && g.Pkg == sp {
+					bad++
+					c.ob("C26.d codec-stateless", fmt.Sprintf("%s updates package-level map packets.%s", fname(fn), g.Name()), c.pos(x.Pos()), false, "shared mutable state in the codec")
+				}
+			}
+		}
+	}
+	c.floor("C26.d functions of package packets examined", nf, 60)
+	if bad == 0 {
+		c.ob("C26.d codec-stateless", "package packets: no function outside init writes or aliases package-level storage", "", true, fmt.Sprintf("%d functions", nf))
+	}
+}
+
+func rootGlobal(v ssa.Value) *ssa.Global {
+	for i := 0; i < 10; i++ {
+		switch x := v.(type) {
+		case *ssa.Global:
+			return x
+		case *ssa.FieldAddr:
+			v = x.X
+		case *ssa.IndexAddr:
+			v = x.X
+		case *ssa.UnOp:
+			v = x.X
+		default:
+			return nil
+		}
+	}
+	return nil
 }
 
 func useSig(us []propUse) string {
